@@ -589,6 +589,7 @@ func rulesC18(c *Ctx) {
 	R.Rule("R4", "every keyset entry the wallet keeps in memory carries that keyset's fee (from the mint's answer, from storage or from the entry it replaces)", 4)
 	c.c18KeysetEntriesCarryFee()
 	c.c18SendSplit()
+	R.Rule("R6", "the mint's fee operation is the formula the wallet mirrors: ceil(sum of the inputs' keyset ppk / 1000), one rounding per transaction (shared with C02.R4)", 1)
 	R.Rule("R5", "a swap that the mint accepted removes its inputs from the spendable bucket before anything can fail (a later exact selection must not hand out spent proofs; shared with C17.R2)", 1)
 	c.ruleSwapInputsRemovedFirst("R5")
 
@@ -797,6 +798,18 @@ func rulesC18(c *Ctx) {
 	}
 
 	c.ruleWalletFeeFormula("R3")
+	// the mint's side of the same formula (shared with C02.R4): the wallet's estimate is exact only if the mint
+	// charges one ceil over the summed ppk of all inputs
+	if ks := c.keysetsMapField("R6"); ks != "" {
+		n := 0
+		for f := range c.feeOpsOfSwap() {
+			c.feeFormulaAs("R6", f, ks)
+			n++
+		}
+		if n == 0 {
+			c.R.Unresolved("R6", "fee operation of the mint", "not found")
+		}
+	}
 }
 
 // ruleWalletFeeFormula: the wallet's fee functions (C18.R3; shared with C17: an over-estimated fee is value
